@@ -40,8 +40,8 @@ theorem wfParts (a : NApi.Adjustment) (h : WellFormed a) : WFParts a := by
   unfold WellFormed wellFormed at h
   simp only [Bool.and_eq_true] at h
   obtain ⟨⟨⟨⟨⟨⟨h1, h2⟩, h3⟩, h4⟩, h5⟩, h6⟩, h7⟩ := h
-  refine ⟨((keysOk_iff _).1 h1).1, ((keysOk_iff _).1 h2).1, ((keysOk_iff _).1 h3).1, ?_,
-    ((keysOk_iff _).1 h5).1, h6, h7⟩
+  refine ⟨(keysOk_iff _).1 h1, (keysOk_iff _).1 h2, (keysOk_iff _).1 h3, ?_,
+    (keysOk_iff _).1 h5, h6, h7⟩
   intro e he hm
   have := List.all_eq_true.1 h4 e he
   simp only [Bool.not_eq_true', List.contains_eq_mem, decide_eq_false_iff_not] at this
@@ -455,5 +455,15 @@ theorem compose_main {ext : Externals} {bad : List Str}
   · exact s_mnt1.2.symm
   · show hooksG s0.hooks _ = _; rw [s_hooks, fam_hooks as reply0 hR hc, hooksG_reply0]
   · rfl
+
+/-- a successful creation request: the reply is the fold, every step is `StepOk` -/
+theorem run_chain (c0 : NApi.Container) (rs : List (Result.Plugin × Option Result.Response))
+    (st' : Result.State) (h : Result.run Result.Quirks.fixed (Result.initCreate c0) rs = .ok st')
+    (hwf : ∀ a ∈ adjsOf rs, WellFormed a) :
+    st'.reply = (adjsOf rs).foldl replyStep reply0 ∧ Chain StepOk reply0 (adjsOf rs) := by
+  refine ⟨run_reply rs (Result.initCreate c0) st' c0.id rfl h, ?_⟩
+  have h1 := run_memFree rs (Result.initCreate c0) st' c0.id rfl rfl (memHeld_init c0) h
+  have h2 : Chain (fun _ a => WellFormed a) reply0 (adjsOf rs) := Chain.of_forall hwf
+  exact Chain.mono (fun R a hh => ⟨hh.1, hh.2⟩) (Chain.and h2 h1)
 
 end Nri.Compose
